@@ -89,6 +89,8 @@ KANI_GROUPS = {
         harnesses=[
             dict(name="vk_pivot_reversal_silent_without_pivot", kind="bounded(concrete strictly rising stream, 4 candles)", timeout=300, props=["C06"]),
             dict(name="vk_trend_strength_signal2_sign", kind="bounded(concrete stream, 5 candles)", timeout=600, props=["C06"]),
+            dict(name="vk_trix_constant_candle", kind="bounded(Trix::default(), one concrete candle repeated 3 times)", timeout=600, props=["C08"]),
+            dict(name="vk_rvi_constant_candle", kind="bounded(RelativeVigorIndex::default(), one concrete candle repeated 3 times)", timeout=600, props=["C08"]),
             dict(name="vk_dyn_forwarding_momentum_index", kind="bounded(MomentumIndex(2,1) through dyn dispatch, 3 symbolic steps)", timeout=300, props=["C11"]),
             dict(name="vk_pivot_reversal_low_pivot_buys", kind="bounded(concrete stream with one low pivot, 4 candles)", timeout=300, props=["C06"]),
         ]),
@@ -226,12 +228,13 @@ METHOD_UNITS = ["sma", "simple_window", "wma", "vwma", "st_dev", "mean_abs_dev",
 ALL_VERUS = ["window", "ohlcv"] + METHOD_UNITS + ["indicator_base", "combinators", "converters"] + INDICATOR_UNITS + ["reversal", "indicator_over", "window_serde"]
 
 PROPS["C08"] = dict(
-    verus=ALL_VERUS,
+    verus=ALL_VERUS, kani=["indicators"],
     claim=("Per method under contract: new(p, v) establishes the constant state for v (fresh: window view == [v; n] / recurrences at their fixed "
            "point) and a proof fn <method>_const_step shows that next(v) from a constant state returns the constant output and stays in that state; "
            "one inductive step, verified over the contracts (exact for selections and indices, equality over reals for arithmetic outputs). "
            "Prefix invariance follows because k leading copies leave the same abstract state as new."),
-    assumptions=[REALS, "indicator-level constancy is covered only for indicators under contract (see C05)",
+    assumptions=[REALS, "indicator-level constancy (an indicator initialised with a candle and fed that candle) is NOT proved: two concrete bounded Kani harnesses (Trix, RelativeVigorIndex on one candle) "
+                 "stand in for it; the RVI one is a listed known finding",
                  "methods without a *_const_step lemma in coverage.samples/functions are not covered"],
 )
 PROPS["C10"] = dict(
@@ -314,12 +317,14 @@ PROPS["C14"] = dict(
     claim=("CrossAbove/CrossUnder/Cross are verified twice: in Verus over exact reals against 'fires exactly when the previous difference was negative "
            "and the current one is non-negative' (mirrored; Cross is the signed combination; swapping the series negates: lemma cross_swap_negates), and "
            "bit-precisely by loop-free Kani harnesses over all finite f64 inputs (complete). Upper/LowerReversalSignal::next are verified (Verus, every (left,right), "
-           "rescan loop desugared from the real zip/skip/for_each chain) to keep their max/min bookkeeping valid and, once the window holds real inputs only, to fire "
+           "rescan loop desugared from the real zip/skip/for_each chain) to keep their max/min bookkeeping valid and, once the window holds real inputs only (and during warm-up over the elements that exist), to fire "
            "exactly `right` steps after an element that is >= every older and > every newer element of its left+right+1 neighbourhood; ReversalSignal is lower minus upper. "
            "This holds for the calls before the PeriodType position counter saturates (contract guard index < PeriodType::MAX); beyond it the detectors stop firing, which is "
            "the recorded known finding (concrete 300-step harness)."),
     assumptions=[REALS + " (Verus part); the Kani part is bit-precise over finite inputs",
-                 "warm-up steps (fewer than left+right+1 inputs) are exempt: the detector conflates the construction value with position 0"],
+                 "warm-up steps (fewer than left+right+1 inputs) are covered for streams that START WITH THE CONSTRUCTION VALUE (the documented way to seed a method; predicate seeded_with): the signal is then "
+                 "verified to be the documented rule over the elements that exist (warm_peak_at / warm_trough_at), nothing firing during the first `right` steps; for an instance built from a value other than "
+                 "its first input the detector keeps that value as a phantom maximum (code behaviour, not claimed either way)"],
 )
 
 PROPS["C05"] = dict(
